@@ -67,8 +67,9 @@ def run(ctx):
     chk.counts["functions_in_scope"] = len(R)
     chk.counts["sites"] = len(pop)
     chk.counts["classes"] = len(by)
-    chk.floor("R06.1", "functions in scope", len(R), 400)
-    chk.floor("R06.1", "may-panic sites enumerated", len(pop), 250)
+    full = {"partial", "value", "serde"} <= fb.features
+    chk.floor("R06.1", "functions in scope", len(R), 400 if full else 250)
+    chk.floor("R06.1", "may-panic sites enumerated", len(pop), 250 if full else 150)
     for s in pop[:6]:
         chk.sample({"fn": s["fn"], "class": panics.coarse_key(s), "loc": s["loc"]})
 
